@@ -33,6 +33,7 @@ type Strategy struct {
 	StarveName    string // substring of goroutine name to starve
 	StarveK       int    // starved goroutine runs with probability 1/K when others can
 	StallPermille int    // probability (per mille, per step) to fire the next timer although ops are enabled
+	StallMaxMs    int    // the stall move never jumps the clock by more than this (0 = 5000 ms)
 	StickyPct     int    // "sticky": probability (percent) to keep running the same goroutine
 }
 
@@ -642,13 +643,21 @@ func (s *Sim) computeEnabled(cands []cand) []cand {
 		})
 	}
 	s.nReal = len(cands)
-	if nops > 0 && len(cands) == nops && len(s.timers) > 0 && !s.timers[0].noStall && !s.fair && s.cfg.Strategy.StallPermille > 0 {
+	if nops > 0 && len(cands) == nops && len(s.timers) > 0 && !s.timers[0].noStall && !s.fair && s.cfg.Strategy.StallPermille > 0 && s.timers[0].when-s.now <= s.stallMax() {
 		// stall move ("time passes although work is pending"): always offered as
 		// the LAST candidate, in search and in replay, so candidate numbering is
 		// identical in both modes; the default policy never selects it.
 		cands = append(cands, cand{timer: s.timers[0], stall: true})
 	}
 	return cands
+}
+
+func (s *Sim) stallMax() int64 {
+	m := s.cfg.Strategy.StallMaxMs
+	if m <= 0 {
+		m = 5000
+	}
+	return int64(m) * int64(time.Millisecond)
 }
 
 func (s *Sim) caseEnabled(g *G, c Case) bool {
